@@ -53,7 +53,15 @@ type vfC14Inst struct {
 	evh       *TopicEventHandler
 	disc      bool
 	cancelled bool
+	busy      chan struct{} // non-nil while the event loop is parked inside a thunk of ours
+	frozen    string        // canonical node state taken just before the loop was parked (it cannot be asked later)
 }
+
+// vfC14BusyCopies: an operation issued while the event loop is busy parks at its hand-off to the loop; when the loop
+// comes back after the cancellation, its select takes either one of the waiting hand-offs or the cancelled
+// context, at random (Go's select; not ownable).  With this many copies waiting on the same channel, a hand-off
+// that does not itself watch the PubSub context is left behind in all but 2^-16 of the runs.
+const vfC14BusyCopies = 16
 
 // the API surface: name -> call (ctx is only used by calls that take one)
 func (in *vfC14Inst) ops() map[string]func(ctx context.Context) {
@@ -148,6 +156,10 @@ func (in *vfC14Inst) Enabled() []string {
 			evs = append(evs, "op:"+name)
 		}
 	}
+	if in.busy != nil {
+		return evs // nothing else moves while the loop is parked
+	}
+	evs = append(evs, "busy")
 	for _, e := range in.vfGWInst.Enabled() {
 		evs = append(evs, e)
 	}
@@ -158,11 +170,34 @@ func (in *vfC14Inst) Apply(ev string, judge bool) string {
 	if ev == "cancel" {
 		return in.shutdown(judge)
 	}
+	if ev == "busy" {
+		// the event loop is busy (parked in a thunk, as it would be in a slow user callback) from here on
+		in.lastEv = ev
+		in.frozen = in.vfGWInst.Canon()
+		in.busy = make(chan struct{})
+		gate := in.busy
+		ps := in.g.n.ps
+		go func() {
+			select {
+			case ps.eval <- func() { <-gate }:
+			case <-ps.ctx.Done():
+			}
+		}()
+		synctest.Wait()
+		return ""
+	}
 	if strings.HasPrefix(ev, "op:") {
 		name := ev[3:]
 		in.started[name] = true
 		in.lastEv = ev
 		in.start(name)
+		if in.busy != nil && name != "setscore" {
+			// (SetScoreParams parks at its hand-off holding the topic's write lock: further copies would wait for
+			// that mutex, which is not a durable block, and wedge the bubble)
+			for i := 1; i < vfC14BusyCopies; i++ {
+				in.start(name)
+			}
+		}
 		synctest.Wait()
 		in.g.collect()
 		return ""
@@ -193,6 +228,13 @@ func (in *vfC14Inst) shutdown(judge bool) string {
 	g.n.cancel()
 	in.cancelled = true
 	synctest.Wait()
+	if in.busy != nil {
+		if judge {
+			in.count("cancellations_with_the_loop_busy")
+		}
+		close(in.busy) // the loop comes back to find the context cancelled and hand-offs waiting
+		synctest.Wait()
+	}
 	// the host goes down: streams close, pending dials fail
 	for _, name := range g.order {
 		if g.gated[name] {
@@ -285,12 +327,20 @@ func (in *vfC14Inst) Canon() string {
 		st = append(st, fmt.Sprintf("%s:%v", c.name, c.finished()))
 	}
 	sort.Strings(st)
+	if in.busy != nil {
+		return in.frozen + "\nLOOP-BUSY calls=" + strings.Join(st, ",")
+	}
 	return in.vfGWInst.Canon() + "\ncalls=" + strings.Join(st, ",")
 }
 
 func (in *vfC14Inst) Finish(judge bool) string {
 	if !in.cancelled {
 		// release everything that is parked so that the execution can end
+		if in.busy != nil {
+			close(in.busy)
+			in.busy = nil
+			synctest.Wait()
+		}
 		for _, c := range in.calls {
 			c.cancel()
 		}
